@@ -417,6 +417,32 @@ Definition reqobj_outcome (r : router) (c : config) (k : client_kind) (p : ro_pl
         end
     end.
 
+(* ------------------------------------------------------------------ PKCE parameters carried by a request object
+   CopyRequestObjectToAuthRequest: a parameter present in the (signed) request object supersedes the one
+   in the query (OIDC Core 6.1); one that the object does not carry stays as the query gave it *)
+
+Definition merge {A : Type} (query object : option A) : option A :=
+  match object with Some x => Some x | None => query end.
+
+(* the whole code flow of a client of kind k whose authorization request carries a request object signed with
+   its registered key (other parameters placed as p says): qm / om = code_challenge_method in the query / in
+   the object, qc / oc = how the verifier of the token request relates to the code_challenge in the query /
+   in the object (None: no challenge there), sent = the token request carries a code_verifier.
+   The request stored by CreateAuthRequest has the merged challenge and method (no method = "", which
+   VerifyCodeChallenge treats like plain); a method without any challenge is dropped. *)
+Definition ro_pkce_issued (r : router) (c : config) (k : client_kind) (p : ro_placement)
+           (qm om : option string) (qc oc : option vrel) (sent : bool) : bool :=
+  match reqobj_outcome r c k p with
+  | RoHonoured =>
+      match merge qc oc with
+      | Some rel =>
+          pkce_issued r c k (Some (match merge qm om with Some m => m | None => EmptyString end))
+                      (if sent then rel else VAbsent)
+      | None => pkce_issued r c k None (if sent then VNone else VAbsent)
+      end
+  | _ => false           (* no authorization request was stored: nothing to redeem *)
+  end.
+
 (* ------------------------------------------------------------------ issuer validation *)
 
 (* the part of url.Parse the validation depends on and that is modelled:
